@@ -99,15 +99,25 @@ pub struct Scenario {
     pub pre: Vec<Action>,
     /// genesis configuration (0 = the standard one, see `genesis_world`)
     pub genesis: u8,
+    /// label prefixes of alphabet actions taken from the root before `pre` (e.g. minting a token on mainnet, where no faucet can fund a wallet)
+    pub setup_labels: Vec<&'static str>,
 }
 
 pub fn sc(name: &'static str, net: NetID, fee_mult: u128, cfg: AlphaCfg, depth: usize) -> Scenario {
-    Scenario { name, net, fee_mult, cfg, depth, pre: vec![], genesis: 0 }
+    Scenario { name, net, fee_mult, cfg, depth, pre: vec![], genesis: 0, setup_labels: vec![] }
 }
 
 pub fn run_scenario(run: &Run, sc: &Scenario, max_states: usize) -> SearchStats {
     let (_w, mut root) = root_variant(sc.net, sc.fee_mult, true, sc.genesis);
     let eng = Engine::new(run);
+    if !sc.setup_labels.is_empty() {
+        let mut setup_cfg = sc.cfg.clone();
+        setup_cfg.mints = true;
+        match advance_by_labels(run, root.clone(), &setup_cfg, &sc.setup_labels) {
+            Some(n) => root = n,
+            None => run.machinery_failure(&format!("scenario {}: set-up by labels {:?} failed", sc.name, sc.setup_labels)),
+        }
+    }
     for a in &sc.pre {
         match eng.step(&root, a) {
             StepOut::Next(n) => root = n,
@@ -218,10 +228,14 @@ pub fn boundary_scenarios(cfg: &AlphaCfg, depth: usize, thorough: bool) -> Vec<S
     t.pre.push(Action::Jump(978_390));
     v.push(t);
     // mainnet: TIP-902 (180000: ERG/SYM pool, peg formula), TIP-909 (950000: subsidy), TIP-909a (1048000), first halving (1950000)
-    let mut m = sc("mainnet-tip902-180000", NetID::Mainnet, 0, cfg.clone(), depth);
+    // mainnet has no faucet: the wallet's second denomination is a token minted in block 1
+    let minted = vec!["open", "mint(", "seal(None)"];
+    let mut m = sc("mainnet-tip902-180000", NetID::Mainnet, 0, cfg.clone(), depth + 2);
+    m.setup_labels = minted.clone();
     m.pre = vec![Action::Jump(179_998)];
     v.push(m);
-    let mut m = sc("mainnet-tip909-950000", NetID::Mainnet, 0, cfg.clone(), depth);
+    let mut m = sc("mainnet-tip909-950000", NetID::Mainnet, 0, cfg.clone(), depth + 2);
+    m.setup_labels = minted.clone();
     m.pre = cross(829_998);
     m.pre.push(Action::Jump(949_998));
     v.push(m);
@@ -229,20 +243,24 @@ pub fn boundary_scenarios(cfg: &AlphaCfg, depth: usize, thorough: bool) -> Vec<S
     let mut f = sc("custom02-subsidy-runs-out-21950000", NetID::Custom02, 0, cfg.clone(), depth.min(5));
     f.pre = vec![Action::Jump(21_949_998)];
     v.push(f);
+    let mut m = sc("mainnet-deposit-rule-978392", NetID::Mainnet, 0, cfg.clone(), depth + 2);
+    m.setup_labels = minted.clone();
+    m.pre = cross(829_998);
+    m.pre.push(Action::Jump(978_390));
+    v.push(m);
     if thorough {
-        let mut m = sc("mainnet-deposit-rule-978392", NetID::Mainnet, 0, cfg.clone(), depth);
-        m.pre = cross(829_998);
-        m.pre.push(Action::Jump(978_390));
-        v.push(m);
-        let mut m = sc("mainnet-tip909a-1048000", NetID::Mainnet, 0, cfg.clone(), depth);
+        let mut m = sc("mainnet-tip909a-1048000", NetID::Mainnet, 0, cfg.clone(), depth + 2);
+        m.setup_labels = minted.clone();
         m.pre = cross(829_998);
         m.pre.push(Action::Jump(1_047_998));
         v.push(m);
-        let mut m = sc("mainnet-halving-1950000", NetID::Mainnet, 0, cfg.clone(), depth);
+        let mut m = sc("mainnet-halving-1950000", NetID::Mainnet, 0, cfg.clone(), depth + 2);
+        m.setup_labels = minted.clone();
         m.pre = cross(829_998);
         m.pre.push(Action::Jump(1_949_998));
         v.push(m);
-        let mut m = sc("mainnet-tip901-42700", NetID::Mainnet, 0, cfg.clone(), depth);
+        let mut m = sc("mainnet-tip901-42700", NetID::Mainnet, 0, cfg.clone(), depth + 2);
+        m.setup_labels = minted.clone();
         m.pre = vec![Action::Jump(42_698)];
         v.push(m);
         let mut t = sc("testnet-tip909-halving-1950000", NetID::Testnet, 0, cfg.clone(), depth);
